@@ -515,8 +515,12 @@ func runProperty(prop, tier string, workers int) int {
 	}
 	eb, _ := json.MarshalIndent(ev, "", " ")
 	if !noEvidence {
-		os.MkdirAll(filepath.Join(verifDir, "evidence"), 0755)
-		os.WriteFile(filepath.Join(verifDir, "evidence", prop+".json"), eb, 0644)
+		evDir := filepath.Join(verifDir, "evidence")
+		if d := os.Getenv("VERIF_EVIDENCE_DIR"); d != "" {
+			evDir = d // development runs that must not overwrite the registered evidence
+		}
+		os.MkdirAll(evDir, 0755)
+		os.WriteFile(filepath.Join(evDir, prop+".json"), eb, 0644)
 	}
 	fmt.Printf("property=%s tier=%s items=%d paths=%d instrs=%d queries=%d validated=%d violations=%d inconclusive=%d wall=%.1fs exit=%d\n",
 		prop, tier, len(items), totalPaths, totalInstrs, solver.Queries, validated, violations, len(inconclusive), time.Since(t0).Seconds(), exit)
